@@ -1,6 +1,10 @@
+mod c16;
 mod c17;
 mod spec;
 use vkit::{Check, Level};
 fn main() {
-    vkit::main(&[Check { id: "C17", level: Level::ModelChecking, run: c17::run }]);
+    vkit::main(&[
+        Check { id: "C16", level: Level::ModelChecking, run: c16::run },
+        Check { id: "C17", level: Level::ModelChecking, run: c17::run },
+    ]);
 }
